@@ -1,4 +1,7 @@
+#[cfg(not(feature = "verif_hooks"))]
 use std::sync::RwLock;
+#[cfg(feature = "verif_hooks")]
+use crate::verif_hooks::RwLock;
 
 use crate::{util, Modulus};
 
@@ -28,7 +31,7 @@ impl GaloisTool {
     /// Copy of the permutation-table cache, or `None` while a writer holds the lock.
     #[cfg(feature = "verif_hooks")]
     pub fn verif_tables_snapshot(&self) -> Option<Vec<Vec<usize>>> {
-        self.permutation_tables.try_read().ok().map(|g| g.clone())
+        self.permutation_tables.verif_peek()
     }
 
     pub fn generate_table_ntt(&self, galois_elt: usize) -> Vec<usize> {
@@ -147,28 +150,16 @@ impl GaloisTool {
 
         // Acquire lock
         let need_to_generate = {
-            #[cfg(feature = "verif_hooks")]
-            let _vh_check = crate::verif_hooks::lock_enter(&self.permutation_tables, crate::verif_hooks::LockKind::Read, "galois.check.read");
             let tables = self.permutation_tables.read().unwrap();
-            #[cfg(feature = "verif_hooks")]
-            _vh_check.acquired();
             (*tables)[index].is_empty()
         };
         if need_to_generate {
-            #[cfg(feature = "verif_hooks")]
-            let _vh_fill = crate::verif_hooks::lock_enter(&self.permutation_tables, crate::verif_hooks::LockKind::Write, "galois.fill.write");
             let mut tables = self.permutation_tables.write().unwrap();
-            #[cfg(feature = "verif_hooks")]
-            _vh_fill.acquired();
             (*tables)[index] = self.generate_table_ntt(galois_elt);
         }
 
         // Acquire read
-        #[cfg(feature = "verif_hooks")]
-        let _vh_use = crate::verif_hooks::lock_enter(&self.permutation_tables, crate::verif_hooks::LockKind::Read, "galois.use.read");
         let reader = self.permutation_tables.read().unwrap();
-        #[cfg(feature = "verif_hooks")]
-        _vh_use.acquired();
         let table = &(*reader)[index];
         // Perform permutation.
         assert_eq!(result.len(), self.coeff_count);
